@@ -4,6 +4,6 @@ set -e
 cd "$(dirname "$0")"
 mkdir -p ../.build
 coqc -Q ../coq ACV Extract.v > ../.build/extract.log 2>&1 || { cat ../.build/extract.log; exit 1; }
-ocamlfind ocamlopt -O2 -w -a -package str -linkpkg model.mli model.ml sexp.ml glue_*.ml main.ml -o ../.build/driver 2> ../.build/ocaml.log \
- || ocamlfind ocamlopt -w -a -package str -linkpkg model.mli model.ml sexp.ml glue_*.ml main.ml -o ../.build/driver
+ocamlfind ocamlopt -O2 -w -a -package str -linkpkg model.mli model.ml sexp.ml glue_sem.ml glue_c*.ml main.ml -o ../.build/driver 2> ../.build/ocaml.log \
+ || ocamlfind ocamlopt -w -a -package str -linkpkg model.mli model.ml sexp.ml glue_sem.ml glue_c*.ml main.ml -o ../.build/driver
 rm -f *.cmi *.cmx *.o *.cmo
